@@ -95,14 +95,73 @@ def walletPositionOf (spk : Nat → Nat → Option Bytes) (branches : List Nat) 
     Option (Option (Nat × Nat)) :=
   Scan.scanE (fun b i => (spk b i).map fun t => decide (t = s)) (fun _ => last) branches
 
-/-- `DescriptorWallet.position_of`: one `index_of` per chain (index 0 only for a chain that is not ranged). -/
+/-! ### `DescriptorWallet`: chains under LABELS
+
+`DescriptorWallet.__init__` takes one descriptor (label 0), a sequence (labels `0 … n-1`, `dict(enumerate(…))`)
+or a `Mapping[int, Descriptor]` with any non-negative labels; it keeps `dict(sorted(by_branch.items()))`, so
+`branches` is ascending whatever order the mapping was written in, and `position_of` answers the LABEL. -/
+
+/-- one step of `dict(sorted(dict(items).items()))`: a label already present is overwritten (a later item
+    wins), a new one goes to its place in ascending order. -/
+def insertChain (x : Nat × D) : List (Nat × D) → List (Nat × D)
+  | [] => [x]
+  | y :: ys => if y.1 < x.1 then y :: insertChain x ys else if y.1 = x.1 then x :: ys else x :: y :: ys
+
+/-- `self._descriptors`: the items of the mapping, one per label, labels ascending. -/
+def walletChains (items : List (Nat × D)) : List (Nat × D) := items.foldl (fun acc x => insertChain x acc) []
+
+/-- `dict(enumerate(descriptors))`: a sequence is the chains in order. -/
+def enumerateFrom (n : Nat) : List D → List (Nat × D)
+  | [] => []
+  | d :: ds => (n, d) :: enumerateFrom (n + 1) ds
+
+def D.isCombo : D → Bool
+  | .combo _ => true
+  | _ => false
+
+/-- `DescriptorWallet.__init__(by_branch, prv_keys)`: an item is (label, the network its descriptor was parsed
+    for, the descriptor).  `none` is the BTClibValueError of: no descriptor, a negative label, a `combo()`,
+    descriptors of different networks (`addr()` has the network of its address), a first chain that does not
+    describe exactly one script at index 0 (`self.script_pub_key(self.branches[0]).type`).  Otherwise the
+    wallet's network and its chains. -/
+def descWalletNew (prv : PrvKeys) (items : List (Int × String × D)) : Option (String × List (Nat × D)) :=
+  match items with
+  | [] => none
+  | (_, net0, d0) :: _ =>
+    if items.any (fun x => decide (x.1 < 0) || x.2.2.isCombo) then none
+    else if items.any (fun x => descNetwork E x.2.1 x.2.2 != descNetwork E net0 d0) then none
+    else
+      let net := descNetwork E net0 d0
+      let chains := walletChains (items.map fun x => (x.1.toNat, x.2.2))
+      match chains with
+      | [] => none
+      | (_, d) :: _ => (scriptPubKey E net prv d 0).map fun _ => (net, chains)
+
+/-- the scan of `DescriptorWallet.position_of` over the wallet's chains (`self._descriptors.items()`):
+    `Descriptor.index_of` per chain — index 0 only for a chain that is not ranged — the answer is the LABEL. -/
+def chainsPositionOf (net : String) (prv : PrvKeys) (chains : List (Nat × D)) (s : Bytes) (last : Nat) :
+    Option (Option (Nat × Nat)) :=
+  (Scan.scanE (fun (c : Nat × D) i => (scriptPubKeys E net prv c.2 i).map fun l => decide (s ∈ l))
+    (fun c => if c.2.isRanged then last else 0) chains).map fun r => r.map fun (c, i) => (c.1, i)
+
+/-- `DescriptorWallet(descriptors as a sequence).position_of`: labels are the positions in the sequence. -/
 def descWalletPositionOf (net : String) (prv : PrvKeys) (chains : List D) (s : Bytes) (last : Nat) :
     Option (Option (Nat × Nat)) :=
-  Scan.scanE (fun (b : Nat) i => match chains[b]? with
-      | some d => (scriptPubKeys E net prv d i).map fun l => decide (s ∈ l)
-      | none => some false)
-    (fun b => match chains[b]? with | some d => (if d.isRanged then last else 0) | none => 0)
-    (List.range chains.length)
+  chainsPositionOf E net prv (walletChains (enumerateFrom 0 chains)) s last
+
+/-- `DescriptorWallet(mapping, prv_keys).position_of(script, last)`, construction included. -/
+def descWalletMappingPositionOf (prv : PrvKeys) (items : List (Int × String × D)) (s : Bytes) (last : Nat) :
+    Option (Option (Nat × Nat)) :=
+  match descWalletNew E prv items with
+  | none => none
+  | some (net, chains) => chainsPositionOf E net prv chains s last
+
+/-- `DescriptorWallet.script_pub_key(branch, index)`: `_assert_position` (the label is one of `branches`),
+    then the chain's one script. -/
+def chainsScriptPubKey (net : String) (prv : PrvKeys) (chains : List (Nat × D)) (b i : Nat) : Option Bytes :=
+  match chains.lookup b with
+  | none => none
+  | some d => scriptPubKey E net prv d i
 
 end
 end Btc.Desc
